@@ -152,7 +152,7 @@ func workerEnv(dir string, off int) []string {
 	env := os.Environ()
 	out := env[:0:0]
 	for _, e := range env {
-		if strings.HasPrefix(e, "GOMAXPROCS=") || strings.HasPrefix(e, "GORACE=") || strings.HasPrefix(e, "PBSIM_") || strings.HasPrefix(e, "GOPROTODEBUG=") {
+		if strings.HasPrefix(e, "GOMAXPROCS=") || strings.HasPrefix(e, "GORACE=") || strings.HasPrefix(e, "PBSIM_") || strings.HasPrefix(e, "GOPROTODEBUG=") || strings.HasPrefix(e, "GOLANG_PROTOBUF_REGISTRATION_CONFLICT=") {
 			continue
 		}
 		out = append(out, e)
